@@ -400,7 +400,7 @@ pub fn main(opts: &Opts) -> Report {
     }
     let mut rng = Rng::new(opts.shard_seed() ^ 0xC19);
     let ars = arities();
-    let per = opts.budget(16 * 12, 16 * 600);
+    let per = opts.budget(16 * 100, 16 * 5000);
     for a in &ars {
         for _ in 0..per {
             let seed = rng.next();
